@@ -197,8 +197,23 @@ class MatrixExpression:
         return _matrix_binary_op(self, other, "/")
 
     def __rtruediv__(self, other: float | int) -> MatrixExpression:
-        """Right scalar division: other / self."""
+        """Right division: other / self (scalar broadcast or element-wise array)."""
         rows, cols = self.shape
+        if isinstance(other, np.ndarray) and other.ndim > 0:
+            if other.shape != (rows, cols):
+                raise DimensionMismatchError(
+                    operation="division",
+                    left_shape=other.shape,
+                    right_shape=(rows, cols),
+                )
+            result_exprs = [
+                [
+                    BinaryOp(Constant(other[i, j]), self._expressions[i][j], "/")
+                    for j in range(cols)
+                ]
+                for i in range(rows)
+            ]
+            return MatrixExpression(result_exprs)
         const = Constant(other)
         result_exprs = [
             [BinaryOp(const, self._expressions[i][j], "/") for j in range(cols)]
@@ -981,8 +996,23 @@ class MatrixVariable:
         return _matrix_binary_op(self, other, "/")
 
     def __rtruediv__(self, other: float | int) -> MatrixExpression:
-        """Right division: scalar / X."""
+        """Right division: other / X (scalar broadcast or element-wise array)."""
         rows, cols = self.shape
+        if isinstance(other, np.ndarray) and other.ndim > 0:
+            if other.shape != (rows, cols):
+                raise DimensionMismatchError(
+                    operation="division",
+                    left_shape=other.shape,
+                    right_shape=(rows, cols),
+                )
+            result_exprs = [
+                [
+                    BinaryOp(Constant(other[i, j]), self._variables[i][j], "/")
+                    for j in range(cols)
+                ]
+                for i in range(rows)
+            ]
+            return MatrixExpression(result_exprs)
         const = Constant(other)
         result_exprs = [
             [BinaryOp(const, self._variables[i][j], "/") for j in range(cols)]
